@@ -373,6 +373,36 @@ Definition check_receiver_type_compatibility (p r : vehicle_id) (seg : node_id *
   | _ => Ok true
   end.
 
+(* update_tours before the repair "fix: a start depot handed to the receiver must have room for it" (kept for the
+   proofs: an Ok result of update_tours is an Ok result of this function, SchedPeel.v) *)
+Definition update_tours_prefix (vehicles : list (vehicle_id * Z)) tours forms usage dummies ids dids (uns : Z * Z) (costs : Z)
+  (p : vehicle_id) (ntp : option tour) (r : vehicle_id) (ntr : tour) (moved : list node_id) :=
+  do (vehicles1, tours1, dummies1, ids1, dids1, costs1) <-
+    (match ntp with
+     | Some nt =>
+         do (t2, d2, c2) <- update_tour_and_costs tours dummies costs p nt;
+         Ok (vehicles, t2, d2, ids, dids, c2)
+     | None =>
+         do c2 <- (if is_vehicle p then
+                     do t <- (match tour_of p with Ok t => Ok t | _ => Panic end); z_sub_cost costs (t_costs t)
+                   else Ok costs);
+         if is_dummy p then
+           do dd <- sorted_remove p dids;
+           Ok (vehicles, tours, vdel p dummies, ids, dd, c2)
+         else if is_vehicle p then
+           do ty <- (match vehicle_type_of p with Ok ty => Ok ty | _ => Panic end);
+           do ids' <- ids_remove ty p ids;
+           Ok (vdel p vehicles, vdel p tours, dummies, ids', dids, c2)
+         else Ok (vehicles, tours, dummies, ids, dids, c2)
+     end);
+  do usage1 <- update_depot_usage usage vehicles1 tours1 p;
+  do (tours2, dummies2, costs2) <- update_tour_and_costs tours1 dummies1 costs1 r ntr;
+  do usage2 <- update_depot_usage usage1 vehicles1 tours2 r;
+  let recv := match vget r (s_vehicles s) with Some ty => Some (r, ty) | None => None end in
+  do (forms2, uns2) <- update_train_formation forms uns (Some p) recv moved;
+  Ok (vehicles1, tours2, forms2, usage2, dummies2, ids1, dids1, uns2, costs2).
+
+
 (* update_tours *)
 Definition update_tours (vehicles : list (vehicle_id * Z)) tours forms usage dummies ids dids (uns : Z * Z) (costs : Z)
   (p : vehicle_id) (ntp : option tour) (r : vehicle_id) (ntr : tour) (moved : list node_id) :=
@@ -397,6 +427,22 @@ Definition update_tours (vehicles : list (vehicle_id * Z)) tours forms usage dum
   do usage1 <- update_depot_usage usage vehicles1 tours1 p;
   do (tours2, dummies2, costs2) <- update_tour_and_costs tours1 dummies1 costs1 r ntr;
   do usage2 <- update_depot_usage usage1 vehicles1 tours2 r;
+  (* since the repair "fix: a start depot handed to the receiver must have room for it": a segment starting at the
+     provider's start depot moves that depot to the receiver; refused if the depot is then over its capacity *)
+  do _ <- (match vget r (s_vehicles s) with
+           | Some rty =>
+               do nt <- unwrap_opt (vget r tours2);
+               do nsd <- (match start_depot nw nt with Ok x => Ok x | _ => Panic end);
+               do ot <- unwrap_opt (vget r (s_tours s));
+               do osd <- (match start_depot nw ot with Ok x => Ok x | _ => Panic end);
+               if negb (nid_eqb nsd osd) then
+                 let d := get_depot_idx nw nsd in
+                 if (capacity_of nw d rty <? spawned_same_type usage2 d rty) ||
+                    (total_capacity_of nw d <? spawned_total usage2 d)
+                 then Err else Ok tt
+               else Ok tt
+           | None => Ok tt
+           end);
   let recv := match vget r (s_vehicles s) with Some ty => Some (r, ty) | None => None end in
   do (forms2, uns2) <- update_train_formation forms uns (Some p) recv moved;
   Ok (vehicles1, tours2, forms2, usage2, dummies2, ids1, dids1, uns2, costs2).
